@@ -174,7 +174,7 @@ def random_history(rng, kind, nkeys, nvals, nops, p_fail=0.05, with_bad=False, t
             lines.append("bad %d setrefuse %d" % (o, k))          # value type Probe: a value its Assign refuses, for a present or an absent key
         elif with_bad:
             lines.append("bad %d %s" % (o, rng.choice(["settype", "setval", "setnullk", "setnullv", "getnull",
-                                                          "remnull", "memnull", "gettype", "remtype", "memtype", "resizehuge", "resizemax"])))
+                                                          "remnull", "memnull", "gettype", "remtype", "memtype", "resizehuge", "resizemax", "newnulltypes", "newinttypes"])))
         else:
             lines.append("set %d %d %d" % (o, k, rng.randint(1, nvals)))
             present[o].add(k)
